@@ -607,6 +607,18 @@ Fixpoint strip_prefix (p s : str) : option str :=
   | _ :: _, [] => None
   end.
 
+(* existsb whose evaluation stops at the first hit (vm_compute is call-by-value: the "||" of
+   List.existsb would explore every branch of the search below) *)
+Fixpoint lexists {A} (f : A -> bool) (l : list A) : bool :=
+  match l with [] => false | x :: r => if f x then true else lexists f r end.
+
+(* only the first of several picks with the same string is worth trying *)
+Fixpoint first_occ (seen : list str) (ps : list (str * list str)) : list (str * list str) :=
+  match ps with
+  | [] => []
+  | p :: r => if memb str_eqb (fst p) seen then first_occ seen r else p :: first_occ (fst p :: seen) r
+  end.
+
 (* is s the concatenation of the strings l, in SOME order, separated by sep?
    (the order of GROUP_CONCAT is not specified) *)
 Fixpoint concat_match (f : nat) (sep : str) (l : list str) (s : str) : bool :=
@@ -616,7 +628,7 @@ Fixpoint concat_match (f : nat) (sep : str) (l : list str) (s : str) : bool :=
       match l with
       | [] => match s with [] => true | _ => false end
       | _ =>
-          existsb (fun p =>
+          lexists (fun p =>
             match strip_prefix (fst p) s with
             | None => false
             | Some s' =>
@@ -627,7 +639,7 @@ Fixpoint concat_match (f : nat) (sep : str) (l : list str) (s : str) : bool :=
                           | Some s'' => concat_match f' sep rest s''
                           end
                 end
-            end) (picks l)
+            end) (first_occ [] (picks l))
       end
   end.
 
